@@ -22,6 +22,7 @@ mod c14;
 mod c17;
 mod c18;
 mod c19;
+mod c15;
 mod c16;
 mod c20;
 
@@ -41,6 +42,7 @@ fn main() {
         "C12" => c12::run_case,
         "C13" => c13::run_case,
         "C14" => c14::run_case,
+        "C15" => c15::run_case,
         "C16" => c16::run_case,
         "C17" => c17::run_case,
         "C18" => c18::run_case,
